@@ -16,5 +16,7 @@ def run_both(ctx, pid):
         return
     if proofs is not None:
         proofs.run_proofs(ctx)
-    if bounded is not None:
+    import os
+
+    if bounded is not None and not os.environ.get("VERIF_PROOFS_ONLY"):     # (debug/ledger refresh only: never set by a registered command)
         bounded.run_bounded(ctx)
